@@ -185,25 +185,24 @@ func (c *Controller[R]) OpenGate(cfg GateConfig[R]) (g *Gate[R], t Transfer, err
 		return g, t, err
 	}
 
-	var exists bool
+	var existing *region[R]
 	for _, reg := range c.regions {
 		// Check if there is an existing region that overlaps with that time range.
 		if reg.timeRange.OverlapsWith(cfg.TimeRange) {
-			// v1 optimization: one writer can only overlap with one region at any given time.
-			if exists {
+			// v1 optimization: one writer can only overlap with one region at any given
+			// time. Find every overlapping region before opening on any of them, so
+			// that a refused open leaves no gate behind in the first one.
+			if existing != nil {
 				err = errors.Newf("encountered multiple control regions for time range %s", cfg.TimeRange)
 				c.L.DPanic(err.Error())
 				return nil, t, err
 			}
-			// If there is an existing region, we open a new gate on that region.
-			if g, t, err = reg.open(cfg); err != nil {
-				return
-			}
-			exists = true
+			existing = reg
 		}
 	}
-	if exists {
-		return g, t, err
+	// If there is an existing region, we open a new gate on that region.
+	if existing != nil {
+		return existing.open(cfg)
 	}
 	var res R
 	if res, err = cfg.OpenResource(); err != nil {
